@@ -231,8 +231,16 @@ func accountOrigin(e *Env, v ssa.Value, depth int) []string {
 			return []string{"nil"}
 		}
 	case *ssa.UnOp:
+		if f := forwarded(x); f != nil {
+			return accountOrigin(e, f, depth+1) // a parameter kept in a variable cell (captured by a function literal)
+		}
 		if w, we := e.ctorField(x); w != nil {
 			return accountOrigin(we, w, depth+1)
+		}
+		if fv, ok := x.X.(*ssa.FreeVar); ok {
+			if w, we := e.cellValue(fv); w != nil && we != nil {
+				return accountOrigin(we, w, depth+1)
+			}
 		}
 	case *ssa.TypeAssert:
 		return accountOrigin(e, x.X, depth+1)
@@ -316,6 +324,15 @@ func entryOrigin(e *Env, v ssa.Value, depth int) string {
 			}
 		}
 		return "literal"
+	case *ssa.UnOp:
+		if f := forwarded(x); f != nil {
+			return entryOrigin(e, f, depth+1)
+		}
+		if fv, ok := x.X.(*ssa.FreeVar); ok {
+			if w, we := e.cellValue(fv); w != nil && we != nil {
+				return entryOrigin(we, w, depth+1)
+			}
+		}
 	case *ssa.Extract:
 		if call, ok := x.Tuple.(*ssa.Call); ok && strings.HasSuffix(x.Type().String(), "esdt.ESDigitalToken") {
 			return entryOriginCall(e, call)
